@@ -132,8 +132,11 @@ def _rto(chk, repo, ci, fn):
     inst = f"{ci.qual}.{fn.name}/M"
     M = _find_M(fn)
     b1, b2 = _branches(M)
-    a1, a2 = _assigns(b1), _assigns(b2)
+    from ..pattern import statements, unify, find
     problems = []
+    S1 = [(t, a) for st in b1 for t, a in statements(ast.Module(body=[st], type_ignores=[]), nested=True)]
+    S2 = [(t, a) for st in b2 for t, a in statements(ast.Module(body=[st], type_ignores=[]), nested=True)]
+    xarg = func_params(M)[0]
     # L1 definition gives the meaning of the zipped variable L
     outer = _assigns(fn.body)
     L1 = outer.get("L1")
@@ -142,49 +145,58 @@ def _rto(chk, repo, ci, fn):
     if _norm(outer.get("L2", ast.Constant(value=None))) != "self.prior.sqrtprec":
         problems.append("L2 is not the prior's sqrtprec")
     subst = {"L": "likelihood.distribution.sqrtprec", "L2": "self.prior.sqrtprec"}
-    # forward blocks
-    o1 = a1.get("out1")
-    if not (isinstance(o1, ast.ListComp) and _norm(o1.generators[0].iter) == "zip(L1,self.likelihoods)" and _norm(o1.generators[0].target) == "(L,likelihood)"):
+    # forward branch: stacked = hstack(likelihood blocks + [prior block])
+    bf, used = unify(["$o=np.hstack($o1+[$o2])"], S1)
+    if bf is None:
+        raise AnchorError(f"{inst}: forward branch does not stack `np.hstack(blocks + [prior block])`")
+    a1 = _assigns(b1)
+    o1 = a1.get(bf["o1"])
+    if not (isinstance(o1, ast.ListComp) and _norm(o1.generators[0].iter) == "zip(L1,self.likelihoods)" and _norm(o1.generators[0].target) in ("(L,likelihood)", "L,likelihood")):
         raise AnchorError(f"{inst}: forward likelihood blocks are not a comprehension over zip(L1, self.likelihoods)")
     fwd_like = parse_chain(o1.elt, subst)
-    fwd_prior = parse_chain(a1.get("out2"), subst)
-    if _norm(a1.get("out", ast.Constant(value=None))) != "np.hstack(out1+[out2])":
-        problems.append("forward blocks are not stacked as likelihood blocks followed by the prior block")
-    # adjoint blocks
-    loops = [s for s in b2 if isinstance(s, ast.For)]
+    fwd_prior = parse_chain(a1.get(bf["o2"]), subst)
+    if _norm(fwd_like.arg) != xarg or _norm(fwd_prior.arg) != xarg:
+        problems.append("forward blocks do not act on the operator's argument")
+    # adjoint branch
+    loops = [s_ for s_ in b2 if isinstance(s_, ast.For)]
+    adj_like = None
     if len(loops) != 1 or _norm(loops[0].iter) not in ("self.likelihoods", "zip(L1,self.likelihoods)"):
         problems.append("adjoint branch does not loop over self.likelihoods (same enumeration as the forward stacking)")
     else:
-        lb = loops[0].body
-        lt = [_norm(s) for s in lb]
-        acc = [s for s in lb if isinstance(s, ast.AugAssign) and _norm(s.target) == "out1" and isinstance(s.op, ast.Add)]
-        if len(acc) != 1:
-            problems.append("adjoint likelihood blocks are not accumulated by out1 += ...")
+        LB = statements(loops[0], nested=True)
+        ba, used = unify(["$ie+=len(likelihood.data)", "$is=$ie"], LB)
+        acc = [a for t, a in LB if isinstance(a, ast.AugAssign) and isinstance(a.op, ast.Add) and isinstance(a.value, ast.Call)
+               and not (used and a is used[0])]
+        if ba is None or len(acc) != 1:
+            problems.append("slice bookkeeping is not `end += len(likelihood.data); accumulate block; start = end`")
         else:
             adj_like = parse_chain(acc[0].value, subst)
             want = [adjoint_of(op) for op in reversed(fwd_like.ops)]
             if adj_like.ops != want or adj_like.coef != fwd_like.coef:
                 problems.append(f"likelihood block: forward is {fwd_like}, adjoint is {adj_like}; expected operators {want} "
                                 f"(the adjoint of L·F is F*·Lᵀ)")
-            if _norm(adj_like.arg) != "x[idx_start:idx_end]":
-                problems.append(f"adjoint likelihood block acts on `{_norm(adj_like.arg)}`, not on its own slice x[idx_start:idx_end]")
-        order_ok = lt[:1] == ["idx_end+=len(likelihood.data)"] and lt[-1:] == ["idx_start=idx_end"] and acc and lb.index(acc[0]) == 1
-        if not order_ok:
-            problems.append(f"slice bookkeeping is not `idx_end += len(likelihood.data); use; idx_start = idx_end` ({lt})")
-    adj_prior = parse_chain(a2.get("out2"), subst) if a2.get("out2") is not None else None
-    if adj_prior is None:
-        problems.append("adjoint prior block missing")
-    else:
-        want = [adjoint_of(op) for op in reversed(fwd_prior.ops)]
-        if adj_prior.ops != want or adj_prior.coef != fwd_prior.coef:
-            problems.append(f"prior block: forward is {fwd_prior}, adjoint is {adj_prior}; expected operators {want}")
-        if _norm(adj_prior.arg) != "x[idx_end:]":
-            problems.append(f"adjoint prior block acts on `{_norm(adj_prior.arg)}`, not on the trailing slice x[idx_end:]")
-    if _norm(a2.get("out", ast.Constant(value=None))) != "out1+out2":
-        problems.append("adjoint blocks are not summed")
-    init = {_norm(s) for s in b2 if isinstance(s, ast.Assign)}
-    if not {"idx_start=0", "idx_end=0", "out1=np.zeros(self.n)"} <= init:
-        problems.append("slice counters / accumulator are not initialised to zero")
+            if _norm(adj_like.arg) != f"{xarg}[{ba['is']}:{ba['ie']}]":
+                problems.append(f"adjoint likelihood block acts on `{_norm(adj_like.arg)}`, not on its own slice {xarg}[start:end]")
+            order = [t for t, a in LB]
+            i_end = order.index(f"{ba['ie']}+=len(likelihood.data)")
+            i_acc = [i for i, (t, a) in enumerate(LB) if a is acc[0]][0]
+            i_st = order.index(f"{ba['is']}={ba['ie']}")
+            if not (i_end < i_acc < i_st):
+                problems.append("slice bounds are not advanced before, and the start not after, the block is accumulated")
+            accname = _norm(acc[0].target)
+            inits = {t for t, a in S2}
+            if not {f"{ba['is']}=0", f"{ba['ie']}=0", f"{accname}=np.zeros(self.n)"} <= inits:
+                problems.append("slice counters / accumulator are not initialised to zero")
+            bo, _ = unify([f"$o={accname}+$p2"], S2)
+            if bo is None:
+                problems.append("adjoint blocks are not summed")
+            else:
+                adj_prior = parse_chain(_assigns(b2).get(bo["p2"]), subst)
+                want = [adjoint_of(op) for op in reversed(fwd_prior.ops)]
+                if adj_prior.ops != want or adj_prior.coef != fwd_prior.coef:
+                    problems.append(f"prior block: forward is {fwd_prior}, adjoint is {adj_prior}; expected operators {want}")
+                if _norm(adj_prior.arg) != f"{xarg}[{ba['ie']}:]":
+                    problems.append(f"adjoint prior block acts on `{_norm(adj_prior.arg)}`, not on the trailing slice {xarg}[end:]")
     chk.add("C06-R1", inst, not problems, site(repo, M), f"forward blocks {fwd_like}, {fwd_prior}; adjoint is their blockwise transpose", "; ".join(problems), M)
     # R2: right-hand side
     problems = []
@@ -214,21 +226,27 @@ def _ugla(chk, repo, ci, fn):
     inst = f"{ci.qual}.{fn.name}/M"
     M = _find_M(fn)
     b1, b2 = _branches(M)
+    from ..pattern import statements, unify
     a1, a2 = _assigns(b1), _assigns(b2)
     problems = []
-    f1, f2 = parse_chain(a1.get("out1"), {}), parse_chain(a1.get("out2"), {})
-    g1, g2 = parse_chain(a2.get("out1"), {}), parse_chain(a2.get("out2"), {})
-    for name, f, gch, sl in (("likelihood", f1, g1, "x[:idx]"), ("prior", f2, g2, "x[idx:]")):
+    xarg = func_params(M)[0]
+    S1 = [(t, a) for st in b1 for t, a in statements(ast.Module(body=[st], type_ignores=[]), nested=True)]
+    S2 = [(t, a) for st in b2 for t, a in statements(ast.Module(body=[st], type_ignores=[]), nested=True)]
+    bf, _ = unify(["$o=np.hstack([$o1,$o2])"], S1)
+    ba, _ = unify(["$o=$p1+$p2", "$i=int(self._m)"], S2)
+    if bf is None or ba is None:
+        raise AnchorError(f"{inst}: blocks are not stacked (forward) / summed (adjoint) with the split index int(self._m)")
+    f1, f2 = parse_chain(a1.get(bf["o1"]), {}), parse_chain(a1.get(bf["o2"]), {})
+    g1, g2 = parse_chain(a2.get(ba["p1"]), {}), parse_chain(a2.get(ba["p2"]), {})
+    for name, f, gch, sl in (("likelihood", f1, g1, f"{xarg}[:{ba['i']}]"), ("prior", f2, g2, f"{xarg}[{ba['i']}:]")):
         want = [adjoint_of(op) for op in reversed(f.ops)]
         if gch.ops != want or gch.coef != f.coef:
             problems.append(f"{name} block: forward is {f}, adjoint is {gch}; expected operators {want} with scalar {f.coef}")
         if _norm(gch.arg) != sl:
             problems.append(f"adjoint {name} block acts on `{_norm(gch.arg)}`, not on {sl}")
-    if _norm(a1.get("out", ast.Constant(value=None))) != "np.hstack([out1,out2])" or _norm(a2.get("out", ast.Constant(value=None))) != "out1+out2":
-        problems.append("blocks are not stacked (forward) / summed (adjoint)")
-    if _norm(a2.get("idx", ast.Constant(value=None))) != "int(self._m)":
-        problems.append("split index is not the number of data entries")
-    mdef = [s for s in ast.walk(fn) if isinstance(s, ast.Assign) and path_of(s.targets[0]) == "self._m"]
+        if _norm(f.arg) != xarg:
+            problems.append(f"forward {name} block does not act on the operator's argument")
+    mdef = [s_ for s_ in ast.walk(fn) if isinstance(s_, ast.Assign) and path_of(s_.targets[0]) == "self._m"]
     if len(mdef) != 1 or _norm(mdef[0].value) not in ("len(self.data)", "len(self._data)"):
         problems.append("self._m is not len(data)")
     chk.add("C06-R1", inst, not problems, site(repo, M), f"forward blocks {f1}, {f2}; adjoint is their blockwise transpose", "; ".join(problems), M)
